@@ -65,9 +65,14 @@ func (c *Ctx) BuildTRel(s *Steps, timeout time.Duration) (*TRel, error) {
 			var r smt.Result
 			as := []*smt.Term{p.PC}
 			as = append(as, sym.SideConditions(as)...)
-			s.Interp.WithWorker(func(w *smt.Worker) {
-				r = w.Check(&smt.Query{Name: fmt.Sprintf("stepfeas-%d", p.ID), Asserts: as, Timeout: timeout})
-			})
+			for _, to := range []time.Duration{timeout, 4 * timeout} {
+				s.Interp.WithWorker(func(w *smt.Worker) {
+					r = w.Check(&smt.Query{Name: fmt.Sprintf("stepfeas-%d", p.ID), Asserts: as, Timeout: to})
+				})
+				if r.Status != smt.Unknown {
+					break
+				}
+			}
 			switch r.Status {
 			case smt.Sat:
 				keep[i] = 1
